@@ -95,7 +95,61 @@ Theorem C10_no_lost_writer_refuted_with_txn_leak : forall mp,
 Proof. exact txn_leak_deadlock. Qed.
 Print Assumptions C10_no_lost_writer_refuted_with_txn_leak.
 
-(* 5. trace inclusion: a trace accepted by the correspondence evaluator is the visible part of a
+(*    Progress measure: every move of a writer strictly decreases mu (<= 30 per writer), the moves
+      of the other processes leave it unchanged. *)
+Theorem C10_progress_measure : forall mp s a s', step mp s a = Some s' ->
+  (writer_action a = true -> mu s' < mu s) /\ (writer_action a = false -> mu s' = mu s).
+Proof. exact progress_measure. Qed.
+Print Assumptions C10_progress_measure.
+
+(* 5. group_atomic: every journal record written (or attempted) by a leader is the leader's batch
+      followed by exactly the batches of the writers that received `true` from it — the reply channel
+      does not name its receiver, so this needs: the writer that takes the `true` IS the requester whose
+      batch was just appended; and the sequence number is published once per journalled group, in
+      journal order, with at most one group journalled-but-unpublished at any time. *)
+Theorem C10_group_atomic_journal : forall mp n s r, reachable mp n s -> In r (jlog s) ->
+  j_batches r = j_leader r :: j_replied r.
+Proof. exact journal_composition. Qed.
+Print Assumptions C10_group_atomic_journal.
+
+Theorem C10_group_atomic_reply : forall mp n s l wl c x i s', reachable mp n s ->
+  nth_error (ws s) l = Some wl -> pc wl = WLReply c x -> step mp s (AReplyTrue l i) = Some s' -> i = x.
+Proof. exact reply_goes_to_requester. Qed.
+Print Assumptions C10_group_atomic_reply.
+
+Theorem C10_group_atomic_publish : forall mp n s, reachable mp n s ->
+  ok_leaders (jlog s) = plog s ++ pend_from 0 (ws s) /\ length (pend_from 0 (ws s)) <= 1.
+Proof. exact publish_once. Qed.
+Print Assumptions C10_group_atomic_publish.
+
+(* 6. exactly_one_result: no call is answered twice; a call has a logged result iff it has returned,
+      and that is the result it returned (so when the run is over — quiescent — every started call has
+      exactly one); a writer that was told `true` by leader l returns the result of l's group; the
+      leader returns it too; and that result is unique. *)
+Theorem C10_exactly_one_result : forall mp n s i w, reachable mp n s -> nth_error (ws s) i = Some w ->
+  cnt i (rlog s) <= 1 /\
+  (cnt i (rlog s) = 1 <-> exists e, pc w = WDone e) /\
+  (forall e, In (i, e) (rlog s) -> pc w = WDone e).
+Proof. exact one_result. Qed.
+Print Assumptions C10_exactly_one_result.
+
+Theorem C10_merged_result_is_groups : forall mp n s i w l e, reachable mp n s ->
+  nth_error (ws s) i = Some w -> wgroup w = Some l -> (pc w = WRet e \/ pc w = WDone e) ->
+  group_res (ws s) (glog s) l e.
+Proof. exact merged_result_is_groups. Qed.
+Print Assumptions C10_merged_result_is_groups.
+
+Theorem C10_leader_result_is_groups : forall mp n s g, reachable mp n s -> In g (glog s) ->
+  exists wl, nth_error (ws s) (g_leader g) = Some wl /\ (pc wl = WRet (g_res g) \/ pc wl = WDone (g_res g)).
+Proof. exact leader_result_is_groups. Qed.
+Print Assumptions C10_leader_result_is_groups.
+
+Theorem C10_group_result_unique : forall mp n s l e e', reachable mp n s ->
+  group_res (ws s) (glog s) l e -> group_res (ws s) (glog s) l e' -> e = e'.
+Proof. exact group_res_unique. Qed.
+Print Assumptions C10_group_result_unique.
+
+(* 7. trace inclusion: a trace accepted by the correspondence evaluator is the visible part of a
       run of this system that ends in a state where every call has returned. *)
 Theorem C10_accepted_trace_is_a_run : forall n evs files complete,
   run_case (CTrace n evs files complete) = true -> exists s, reachable wmp n s /\ quiescent s = true.
